@@ -5,9 +5,11 @@ import (
 	"fmt"
 	"sort"
 	"strings"
+	"time"
 
 	proto "github.com/kubewharf/kubebrain-client/api/v2rpc"
 
+	"github.com/kubewharf/kubebrain/pkg/backend"
 	"github.com/kubewharf/kubebrain/zz_verif/h/hx"
 	"github.com/kubewharf/kubebrain/zz_verif/h/mc"
 	"github.com/kubewharf/kubebrain/zz_verif/rt/vrt"
@@ -19,6 +21,7 @@ type c06Cfg struct {
 	engine    string
 	writers   [][]wop
 	compactor bool
+	uncertain bool // the first commit of a writer is applied but answered 'outcome unknown'; the retry loop repairs it
 }
 
 func (c c06Cfg) name() string {
@@ -30,7 +33,11 @@ func (c c06Cfg) name() string {
 		}
 		ws = append(ws, strings.Join(s, ","))
 	}
-	return fmt.Sprintf("C06/%s/%s/compactor=%v", c.engine, strings.Join(ws, "|"), c.compactor)
+	n := fmt.Sprintf("C06/%s/%s/compactor=%v", c.engine, strings.Join(ws, "|"), c.compactor)
+	if c.uncertain {
+		n += "/first-commit-outcome-unknown"
+	}
+	return n
 }
 
 func applyEvents(snap map[string]mkv, evs []evRec, upTo uint64) map[string]mkv {
@@ -66,6 +73,9 @@ func snapString(m map[string]mkv) string {
 
 func c06Scenario(c c06Cfg) *mc.Scenario {
 	return &mc.Scenario{Name: c.name(), TolerateNondet: c.engine != hx.Mem, Body: func(x *mc.X) {
+		if c.uncertain {
+			backend.VerifSetIntervals(5*time.Second, time.Second)
+		}
 		w := newWorld(c.engine, 64)
 		w.kv.Yield = c.engine != hx.Mem
 		defer w.close()
@@ -77,12 +87,23 @@ func c06Scenario(c c06Cfg) *mc.Scenario {
 			w.mustOK(op)
 		}
 		w.ops = nil
+		if c.uncertain {
+			hit := false
+			w.kv.CommitFault = func(n int, b *hx.BatchRec) hx.FaultKind {
+				if !hit && b.Thread != "0.2" { // (0.2 is the retry loop)
+					hit = true
+					return hx.UncertainApplied
+				}
+				return hx.NoFault
+			}
+		}
 		ctx, cancel := context.WithCancel(bg)
 		defer cancel()
 		var first *proto.RangeResponse
 		var listErr, watchErr error
 		var recv []evRec
 		closed := false
+		var lazyCh <-chan []*proto.Event
 		vrt.BeginExplore()
 		reader := vrt.Go(func() {
 			first, listErr = w.b.List(bg, &proto.RangeRequest{Key: []byte(c05Prefix), End: []byte("/r/w0")})
@@ -92,6 +113,11 @@ func c06Scenario(c c06Cfg) *mc.Scenario {
 			var ch <-chan []*proto.Event
 			ch, watchErr = w.b.Watch(ctx, c05Prefix, first.Header.GetRevision()+1)
 			if watchErr != nil {
+				return
+			}
+			if c.uncertain {
+				// (the events are collected after the window: the consumer's own steps add nothing to this scenario)
+				lazyCh = ch
 				return
 			}
 			for {
@@ -159,6 +185,32 @@ func c06Scenario(c c06Cfg) *mc.Scenario {
 		}
 		vrt.Quiesce()
 		vrt.EndExplore()
+		if c.uncertain {
+			// the retry interval passes (several times): the unknown-outcome write is repaired and its event published
+			for i := 0; i < 4; i++ {
+				vrt.Advance(6 * time.Second)
+				vrt.Quiesce()
+			}
+			if n := backend.VerifRetryQueueLen(w.b); n != 0 {
+				x.Fail("C06|repair-never-finishes|"+c.engine, "%d entries are left in the retry queue after four retry intervals", n)
+			}
+			for lazyCh != nil {
+				n, _, cl := vrt.ChanLen(lazyCh)
+				if n == 0 {
+					closed = cl
+					break
+				}
+				evs, ok := <-lazyCh
+				if !ok {
+					closed = true
+					break
+				}
+				for _, e := range evs {
+					recv = append(recv, evRec{e.Type, e.Revision, string(e.Kv.GetKey()), string(e.Kv.GetValue()), e.Kv.GetRevision()})
+				}
+				vrt.Quiesce()
+			}
+		}
 		if listErr != nil || watchErr != nil {
 			x.Obs = fmt.Sprintf("no-verdict list-err=%v watch-refused=%v", listErr != nil, watchErr != nil)
 			w.clean = true
@@ -210,18 +262,19 @@ func c06Scenario(c c06Cfg) *mc.Scenario {
 
 func c06Configs(tier string) []c06Cfg {
 	out := []c06Cfg{
-		{hx.Mem, [][]wop{{wCreateX, wUpdateX, wDeleteX}}, false},
-		{hx.Mem, [][]wop{{wUpdStaleP, wUpdateP, wDupP, wCreateOut}}, false},
-		{hx.Mem, [][]wop{{wDeleteP, wCreateX}}, true},
-		{hx.Mem, [][]wop{{wCreateX, wUpdateX}}, true},
-		{hx.Mem, [][]wop{{wCreateX}, {wDeleteP}}, false},
+		{hx.Mem, [][]wop{{wCreateX, wUpdateX, wDeleteX}}, false, false},
+		{hx.Mem, [][]wop{{wUpdStaleP, wUpdateP, wDupP, wCreateOut}}, false, false},
+		{hx.Mem, [][]wop{{wDeleteP, wCreateX}}, true, false},
+		{hx.Mem, [][]wop{{wCreateX, wUpdateX}}, true, false},
+		{hx.Mem, [][]wop{{wCreateX}, {wDeleteP}}, false, false},
+		{hx.Mem, [][]wop{{wDeleteP}}, true, true},
 	}
 	if tier == "thorough" {
 		out = append(out,
-			c06Cfg{hx.Mem, [][]wop{{wCreateX, wUpdateX}, {wCreateY, wDeleteP}}, false},
-			c06Cfg{hx.Mem, [][]wop{{wCreateX}, {wDeleteP}}, true},
-			c06Cfg{hx.Badger, [][]wop{{wCreateX, wDeleteP}}, true},
-			c06Cfg{hx.TiKV, [][]wop{{wCreateX, wDeleteP}}, true},
+			c06Cfg{hx.Mem, [][]wop{{wCreateX, wUpdateX}, {wCreateY, wDeleteP}}, false, false},
+			c06Cfg{hx.Mem, [][]wop{{wCreateX}, {wDeleteP}}, true, false},
+			c06Cfg{hx.Badger, [][]wop{{wCreateX, wDeleteP}}, true, false},
+			c06Cfg{hx.TiKV, [][]wop{{wCreateX, wDeleteP}}, true, false},
 		)
 	}
 	return out
@@ -231,7 +284,7 @@ func init() {
 	mc.Register(&mc.Property{
 		ID:     "C06",
 		Level:  "model_checking",
-		Rule:   "every schedule (preemption-bounded DFS with happens-before state cache) of a reader that lists at the current revision R and then watches from R+1, against 1-2 writers (successful and failing writes, keys inside and outside the prefix) and optionally a compactor; for every revision R' of a received event and for the committed revision at quiescence (when the stream is still open), List at R' must equal the first list with the events up to R' applied",
+		Rule:   "every schedule (preemption-bounded DFS with happens-before state cache) of a reader that lists at the current revision R and then watches from R+1, against 1-2 writers (successful and failing writes, keys inside and outside the prefix) and optionally a compactor (one scenario with the first commit of the writer applied but answered 'outcome unknown', the retry loop repairing it after the window); for every revision R' of a received event and for the committed revision at quiescence (when the stream is still open), List at R' must equal the first list with the events up to R' applied",
 		Assume: []string{"event cache large enough not to evict (eviction is C05's subject)", "refused watches / refused reads give no verdict and are counted in the outcome histogram"},
 		Scenarios: func(tier string) []*mc.Scenario {
 			var out []*mc.Scenario
@@ -249,6 +302,15 @@ func init() {
 				}
 				if (cfgs[i].compactor || len(cfgs[i].writers) > 1) && c.Tier == "quick" {
 					p.Bounds = []int{0}
+				}
+				if cfgs[i].uncertain {
+					// the window between the collector's two steps for an unknown-outcome write takes one
+					// preemption: 0.27 M executions for this scenario alone, so only the thorough tier goes there
+					p.Class += "/outcome-unknown"
+					p.Bounds = []int{0}
+					if c.Tier == "thorough" {
+						p.Bounds = []int{0, 1}
+					}
 				}
 				return p
 			})
